@@ -75,7 +75,7 @@ theorem fillT_flat (c : Codec H) (ts : TStream) (nl : Nat)
     (hw : WaitsBelow (ioTimeout c.state) (ts.take (nl - c.buffer.length))) :
     (fill flatOps c (tbytes ts) nl = none ∧ fillT c ts nl = .eof) ∨
     (∃ c1, fill flatOps c (tbytes ts) nl = some (c1, tbytes (ts.drop (nl - c.buffer.length))) ∧
-      fillT c ts nl = .ok c1 (ts.drop (nl - c.buffer.length))) := by
+      fillT c ts nl = .ok c1 (ts.drop (nl - c.buffer.length)) ∧ nl - c.buffer.length ≤ ts.length) := by
   unfold fill fillT
   by_cases h : nl - c.buffer.length > 0
   · simp only [h, if_true]
@@ -85,14 +85,14 @@ theorem fillT_flat (c : Codec H) (ts : TStream) (nl : Nat)
     · right
       rw [if_pos hn, if_pos hn]
       exact ⟨{ c with buffer := c.buffer ++ tbytes (ts.take (nl - c.buffer.length)) },
-        by rw [tbytes_take, tbytes_drop], rfl⟩
+        by rw [tbytes_take, tbytes_drop], rfl, hn⟩
     · left
       rw [if_neg hn, if_neg hn]
       exact ⟨rfl, rfl⟩
   · right
     simp only [h, if_false]
     have h0 : nl - c.buffer.length = 0 := by omega
-    exact ⟨c, by rw [h0]; rfl, by rw [h0]; rfl⟩
+    exact ⟨c, by rw [h0]; rfl, by rw [h0]; rfl, by omega⟩
 
 /-- **one `Codec::read` with tolerated waits** = the read on the flat stream: if no wait reaches
 `BODY_IO_TIMEOUT` and, when the read starts in state `None`, the missing bytes of the frame header
@@ -119,7 +119,7 @@ theorem readLoopT_flat (env : Env B H) : ∀ (fuel : Nat) (c : Codec H) (ts : TS
         exact this
       · rw [ioTimeout_body _ hs]
         exact waitsBelow_take hb _
-    rcases fillT_flat c ts (nextLen env c.state) hw with ⟨e1, e2⟩ | ⟨c1, e1, e2⟩
+    rcases fillT_flat c ts (nextLen env c.state) hw with ⟨e1, e2⟩ | ⟨c1, e1, e2, _⟩
     · refine ⟨ts.length, ?_, ?_⟩
       · simp only [readLoop, readLoopT, e1, e2, List.drop_length]
       · simp only [readLoop, e1, List.drop_length]
@@ -546,5 +546,278 @@ theorem delaysOK_of_small (net : NetCfg) : ∀ (msgs : List (Sent B H)) (ts : TS
     apply ih _ _ (waitsBelow_drop hw _)
     rw [tbytes_drop, hts]
     simp
+
+/-! ### idle pauses of any length between messages
+
+The hypothesis on the waits is needed only for the bytes a read / a chain of reads actually consumes
+(`readLoopT_flat_local`, `runT_chain_local`); the wait for the first byte of a frame is absorbed by
+`runT_idle_wait'`. -/
+
+theorem readLoop_bytesRead_ge {σ : Type} (env : Env B H) (ops : SockOps σ) :
+    ∀ (fuel : Nat) (c : Codec H) (s : σ) (br al : Nat), br ≤ (readLoop env ops fuel c s br al).bytesRead := by
+  intro fuel
+  induction fuel with
+  | zero => intro c s br al; simp [readLoop]
+  | succ fuel ih =>
+    intro c s br al
+    simp only [readLoop]
+    cases hf : fill ops c s (nextLen env c.state) with
+    | none => simp
+    | some p =>
+      obtain ⟨c1, s1⟩ := p
+      simp only []
+      cases hst : stepState env c1 (nextLen env c.state) with
+      | inl r => obtain ⟨r, c2, a⟩ := r; simp
+      | inr r =>
+        obtain ⟨c2, a⟩ := r
+        exact Nat.le_trans (Nat.le_add_right _ _) (ih c2 s1 _ _)
+
+theorem waitsBelow_take_le {lim : Nat} {ts : TStream} {a b : Nat} (hab : a ≤ b)
+    (h : WaitsBelow lim (ts.take b)) : WaitsBelow lim (ts.take a) := by
+  have : ts.take a = (ts.take b).take a := by rw [List.take_take, Nat.min_eq_left hab]
+  rw [this]
+  exact waitsBelow_take h a
+
+/-- as `readLoopT_flat`, for a read that returns a message, with the hypothesis on the waits only for
+the `K` bytes the read consumes at most -/
+theorem readLoopT_flat_local (env : Env B H) : ∀ (fuel : Nat) (c : Codec H) (ts : TStream) (br al K : Nat)
+    (m : Message B H),
+    (readLoop env flatOps fuel c (tbytes ts) br al).res = .msg m →
+    (readLoop env flatOps fuel c (tbytes ts) br al).bytesRead ≤ br + K →
+    WaitsBelow BODY_IO_TIMEOUT_MS (ts.take K) →
+    (c.state = .none → WaitsBelow HEADER_IO_TIMEOUT_MS (ts.take (MSG_HEADER_LEN - c.buffer.length))) →
+    ∃ j, j ≤ K ∧ j ≤ ts.length ∧ readLoopT env fuel c ts br al =
+        { res := (readLoop env flatOps fuel c (tbytes ts) br al).res,
+          bytesRead := (readLoop env flatOps fuel c (tbytes ts) br al).bytesRead,
+          alloc := (readLoop env flatOps fuel c (tbytes ts) br al).alloc,
+          codec := (readLoop env flatOps fuel c (tbytes ts) br al).codec, sock := ts.drop j } ∧
+      (readLoop env flatOps fuel c (tbytes ts) br al).sock = tbytes (ts.drop j) ∧
+      (readLoop env flatOps fuel c (tbytes ts) br al).bytesRead = br + j := by
+  intro fuel
+  induction fuel with
+  | zero => intro c ts br al K m h; simp [readLoop] at h
+  | succ fuel ih =>
+    intro c ts br al K m hres hbr hb hh
+    -- the flat fill succeeds (otherwise the read ends with `Connection`)
+    cases hfl : fill flatOps c (tbytes ts) (nextLen env c.state) with
+    | none => simp [readLoop, hfl] at hres
+    | some p =>
+      obtain ⟨c1', s1'⟩ := p
+      have hge : br + (nextLen env c.state - c.buffer.length) ≤
+          (readLoop env flatOps (fuel + 1) c (tbytes ts) br al).bytesRead := by
+        simp only [readLoop, hfl]
+        cases hst : stepState env c1' (nextLen env c.state) with
+        | inl r => obtain ⟨r, c2, a⟩ := r; simp
+        | inr r => obtain ⟨c2, a⟩ := r; exact readLoop_bytesRead_ge env flatOps fuel c2 s1' _ _
+      have hK : nextLen env c.state - c.buffer.length ≤ K := by omega
+      have hw : WaitsBelow (ioTimeout c.state) (ts.take (nextLen env c.state - c.buffer.length)) := by
+        by_cases hs : c.state = .none
+        · have := hh hs
+          rw [hs]
+          exact this
+        · rw [ioTimeout_body _ hs]
+          exact waitsBelow_take_le hK hb
+      rcases fillT_flat c ts (nextLen env c.state) hw with ⟨e1, _⟩ | ⟨c1, e1, e2, hlen⟩
+      · rw [e1] at hfl; cases hfl
+      · simp only [readLoop, readLoopT, e1, e2] at hres hbr ⊢
+        cases hst : stepState env c1 (nextLen env c.state) with
+        | inl r =>
+          obtain ⟨r, c2, a⟩ := r
+          exact ⟨nextLen env c.state - c.buffer.length, hK, hlen, rfl, rfl, rfl⟩
+        | inr r =>
+          obtain ⟨c2, a⟩ := r
+          rw [hst] at hres hbr
+          simp only [] at hres hbr
+          obtain ⟨j, hj, hjl, q1, q2, q3⟩ := ih c2 (ts.drop (nextLen env c.state - c.buffer.length))
+            (br + (nextLen env c.state - c.buffer.length)) (al + (nextLen env c.state - c.buffer.length) + a)
+            (K - (nextLen env c.state - c.buffer.length)) m hres (by omega)
+            (by rw [← List.drop_take]; exact waitsBelow_drop hb _)
+            (fun hn => absurd hn (stepState_inr_state env c1 _ c2 a hst))
+          rw [List.length_drop] at hjl
+          refine ⟨nextLen env c.state - c.buffer.length + j, by omega, by omega, ?_, ?_, ?_⟩
+          · simp only [q1, List.drop_drop]
+          · simp only [q2, List.drop_drop]
+          · rw [q3]; omega
+
+
+/-- the flat stream with no waits -/
+def tag0 (s : Bytes) : TStream := s.map fun b => (0, b)
+
+theorem tbytes_tag0 (s : Bytes) : tbytes (tag0 s) = s := by
+  simp [tag0, tbytes, Function.comp_def]
+
+theorem waitsBelow_tag0 (lim : Nat) (h : 0 < lim) (s : Bytes) : WaitsBelow lim (tag0 s) := by
+  intro p hp
+  simp only [tag0, List.mem_map] at hp
+  obtain ⟨_, _, rfl⟩ := hp
+  exact h
+
+/-- a read on the flat stream that returns a message has consumed exactly `bytes_read` bytes -/
+theorem read_flat_consumes (env : Env B H) (c : Codec H) (s : Bytes) (m : Message B H)
+    (h : (read env flatOps c s).res = .msg m) :
+    ∃ j, j ≤ s.length ∧ (read env flatOps c s).sock = s.drop j ∧ (read env flatOps c s).bytesRead = j := by
+  have h' : (readLoop env flatOps READ_FUEL c (tbytes (tag0 s)) 0 0).res = .msg m := by
+    rw [tbytes_tag0]; exact h
+  obtain ⟨j, _, hjl, _, q2, q3⟩ := readLoopT_flat_local env READ_FUEL c (tag0 s) 0 0
+    (readLoop env flatOps READ_FUEL c (tbytes (tag0 s)) 0 0).bytesRead m h' (by omega)
+    (waitsBelow_take (waitsBelow_tag0 _ (by decide) s) _)
+    (fun _ => waitsBelow_take (waitsBelow_tag0 _ (by decide) s) _)
+  rw [tbytes_tag0] at q2 q3
+  have q3' : (read env flatOps c s).bytesRead = j := by
+    show (readLoop env flatOps READ_FUEL c s 0 0).bytesRead = j
+    omega
+  refine ⟨j, by simpa [tag0] using hjl, ?_, q3'⟩
+  rw [show read env flatOps c s = readLoop env flatOps READ_FUEL c s 0 0 from rfl, q2, tbytes_drop, tbytes_tag0]
+
+theorem chain_length {env : Env B H} {attach : Message B H → Option Nat} {c c' : Codec H} {s s' : Bytes}
+    {ms : List (Message B H)} (h : Chain env attach c s ms c' s') : s'.length ≤ s.length := by
+  induction h with
+  | nil c s => exact Nat.le_refl _
+  | @cons c s m c1 s1 c2 ms c3 s3 hr _ _ ih =>
+    obtain ⟨r1, _, r3⟩ := hr
+    obtain ⟨j, _, e, _⟩ := read_flat_consumes env c s m r1
+    rw [r3] at e
+    have : s1.length ≤ s.length := by rw [e, List.length_drop]; omega
+    omega
+
+/-- `runT_chain` with the hypothesis on the waits only for the bytes the chain consumes -/
+theorem runT_chain_local {env : Env B H} {attach : Message B H → Option Nat} {c c' : Codec H} {s s' : Bytes}
+    {ms : List (Message B H)} (h : Chain env attach c s ms c' s') :
+    AllButLastContinue attach ms → ∀ ts : TStream, tbytes ts = s →
+      WaitsBelow BODY_IO_TIMEOUT_MS (ts.take (s.length - s'.length)) →
+      (c.state = .none → WaitsBelow HEADER_IO_TIMEOUT_MS (ts.take (MSG_HEADER_LEN - c.buffer.length))) →
+      tbytes (ts.drop (s.length - s'.length)) = s' ∧ ∀ fuel, runT env attach (ms.length + fuel) c ts =
+        (ms ++ (runT env attach fuel c' (ts.drop (s.length - s'.length))).1,
+         (runT env attach fuel c' (ts.drop (s.length - s'.length))).2.1,
+         (runT env attach fuel c' (ts.drop (s.length - s'.length))).2.2.1,
+         (runT env attach fuel c' (ts.drop (s.length - s'.length))).2.2.2) := by
+  induction h with
+  | nil c s =>
+    intro _ ts hts _ _
+    rw [Nat.sub_self]
+    exact ⟨by simpa using hts, fun fuel => by simp⟩
+  | @cons c s m c1 s1 c2 ms c3 s3 hr hn htail ih =>
+    intro habl ts hts hb hh
+    subst hts
+    obtain ⟨r1, r2, r3⟩ := hr
+    obtain ⟨j0, hj0, e0, eb0⟩ := read_flat_consumes env c (tbytes ts) m r1
+    rw [r3] at e0
+    have hl3 := chain_length htail
+    have hl1 : s1.length = (tbytes ts).length - j0 := by rw [e0, List.length_drop]
+    obtain ⟨j, _, _, q1, q2, q3⟩ := readLoopT_flat_local env READ_FUEL c ts 0 0
+      ((tbytes ts).length - s3.length) m r1
+      (by rw [show (readLoop env flatOps READ_FUEL c (tbytes ts) 0 0).bytesRead = j0 from eb0]; omega) hb hh
+    have hj : j = j0 := by
+      have : (readLoop env flatOps READ_FUEL c (tbytes ts) 0 0).bytesRead = j0 := eb0
+      omega
+    subst hj
+    have hread : readT env c ts =
+        { res := .msg m, bytesRead := (read env flatOps c (tbytes ts)).bytesRead,
+          alloc := (read env flatOps c (tbytes ts)).alloc, codec := c1, sock := ts.drop j } := by
+      show readLoopT env READ_FUEL c ts 0 0 = _
+      rw [q1]
+      have a1 : (readLoop env flatOps READ_FUEL c (tbytes ts) 0 0).res = .msg m := r1
+      have a2 : (readLoop env flatOps READ_FUEL c (tbytes ts) 0 0).codec = c1 := r2
+      rw [a1, a2]; rfl
+    have hs1 : tbytes (ts.drop j) = s1 := by rw [tbytes_drop, e0]
+    cases ms with
+    | nil =>
+      cases htail
+      have hk : (tbytes ts).length - s1.length = j := by omega
+      rw [hk]
+      refine ⟨hs1, fun fuel => ?_⟩
+      have := runT_msg env attach fuel c ts m c1 c2 _ _ _ hread hn
+      simpa [Nat.add_comm] using this
+    | cons m' r =>
+      obtain ⟨hcont, habl'⟩ := habl
+      have hne := next_state_ne_none env attach c (tbytes ts) m c1 s1 c2 ⟨r1, r2, r3⟩ hn hcont
+      have hk : s1.length - s3.length = ((tbytes ts).length - s3.length) - j := by omega
+      have hb' : WaitsBelow BODY_IO_TIMEOUT_MS ((ts.drop j).take (s1.length - s3.length)) := by
+        rw [hk, ← List.drop_take]
+        exact waitsBelow_drop hb _
+      obtain ⟨p1, p2⟩ := ih habl' (ts.drop j) hs1 hb' (fun h0 => absurd h0 hne)
+      have hsum : j + (s1.length - s3.length) = (tbytes ts).length - s3.length := by omega
+      rw [List.drop_drop, hsum] at p1
+      refine ⟨p1, fun fuel => ?_⟩
+      have e : (m :: m' :: r).length + fuel = ((m' :: r).length + fuel) + 1 := by
+        simp only [List.length_cons]; omega
+      rw [e, runT_msg env attach _ c ts m c1 c2 _ _ _ hread hn, p2 fuel, List.drop_drop, hsum]
+      simp
+
+theorem take_succ_drop_one {α : Type} (x : α) (tl : List α) (n : Nat) : ((x :: tl).take (n + 1)).drop 1 = tl.take n := by
+  simp
+
+/-- the reader loop over a schedule with arbitrarily long idle pauses between messages -/
+theorem runT_all_idle (env : Env B H) (attach : Message B H → Option Nat) (hat : AttachOK attach) :
+    ∀ (msgs : List (Sent B H)), (∀ m ∈ msgs, SentWF env attach m) → ∀ ts : TStream,
+      tbytes ts = (msgs.map (encodeSent env.net)).flatten → DelaysOKIdle env.net msgs ts → ∀ fuel,
+      runT env attach (idleRetries env.net msgs ts + ((msgs.map expected).flatten.length + fuel)) idle ts =
+        ((msgs.map expected).flatten ++ (runT env attach fuel (idle : Codec H) []).1,
+         (runT env attach fuel (idle : Codec H) []).2.1, (runT env attach fuel (idle : Codec H) []).2.2.1,
+         (runT env attach fuel (idle : Codec H) []).2.2.2) := by
+  intro msgs
+  induction msgs with
+  | nil =>
+    intro _ ts _ hd fuel
+    cases hd
+    simp [idleRetries]
+  | cons m ms ih =>
+    intro hwf ts hts hd fuel
+    obtain ⟨hhead, hbody, htail⟩ := hd
+    have hts' : tbytes ts = encodeSent env.net m ++ (ms.map (encodeSent env.net)).flatten := by
+      simpa using hts
+    have hL := encodeSent_length_ge env.net m
+    have hlen : ts.length = (encodeSent env.net m).length + ((ms.map (encodeSent env.net)).flatten).length := by
+      rw [← tbytes_length, hts', List.length_append]
+    -- the stream starts with the first byte of the frame header
+    obtain ⟨L', hL'⟩ : ∃ L', (encodeSent env.net m).length = L' + 1 := ⟨(encodeSent env.net m).length - 1, by
+      have : MSG_HEADER_LEN = 11 := rfl
+      omega⟩
+    cases ts with
+    | nil => simp at hlen; omega
+    | cons p tl =>
+      obtain ⟨w, b⟩ := p
+      have hc := chain_sent env attach hat (ms.map (encodeSent env.net)).flatten m (hwf m (by simp))
+      -- the stream after the idle wait was absorbed
+      have hbytes : tbytes ((w % HEADER_IO_TIMEOUT_MS, b) :: tl) =
+          encodeSent env.net m ++ (ms.map (encodeSent env.net)).flatten := by
+        rw [← hts']; rfl
+      have hpos : w % HEADER_IO_TIMEOUT_MS < HEADER_IO_TIMEOUT_MS := Nat.mod_lt _ (by decide)
+      have hK : (encodeSent env.net m ++ (ms.map (encodeSent env.net)).flatten).length -
+          ((ms.map (encodeSent env.net)).flatten).length = L' + 1 := by
+        rw [List.length_append]; omega
+      have hb2 : WaitsBelow BODY_IO_TIMEOUT_MS (((w % HEADER_IO_TIMEOUT_MS, b) :: tl).take (L' + 1)) := by
+        rw [hL', take_succ_drop_one] at hbody
+        intro q hq
+        rw [List.take_succ_cons, List.mem_cons] at hq
+        rcases hq with rfl | hq
+        · exact Nat.lt_trans hpos header_lt_body
+        · exact hbody q hq
+      have hh2 : WaitsBelow HEADER_IO_TIMEOUT_MS (((w % HEADER_IO_TIMEOUT_MS, b) :: tl).take (10 + 1)) := by
+        have h11 : MSG_HEADER_LEN = 10 + 1 := rfl
+        rw [h11, take_succ_drop_one] at hhead
+        intro q hq
+        rw [List.take_succ_cons, List.mem_cons] at hq
+        rcases hq with rfl | hq
+        · exact hpos
+        · exact hhead q hq
+      obtain ⟨p1, p2⟩ := runT_chain_local hc (abl_expected env attach m (hwf m (by simp)))
+        ((w % HEADER_IO_TIMEOUT_MS, b) :: tl) hbytes (by rw [hK]; exact hb2) (fun _ => hh2)
+      rw [hK] at p1 p2
+      have hdrop : ((w % HEADER_IO_TIMEOUT_MS, b) :: tl).drop (L' + 1) =
+          ((w, b) :: tl).drop (encodeSent env.net m).length := by
+        rw [hL']; rfl
+      rw [hdrop] at p1 p2
+      have ihr := ih (fun x hx => hwf x (by simp [hx])) _ p1 htail fuel
+      -- fuel bookkeeping
+      have hfuel : idleRetries env.net (m :: ms) ((w, b) :: tl) +
+          (((m :: ms).map expected).flatten.length + fuel) =
+          w / HEADER_IO_TIMEOUT_MS + ((expected m).length +
+            (idleRetries env.net ms (((w, b) :: tl).drop (encodeSent env.net m).length) +
+              ((ms.map expected).flatten.length + fuel))) := by
+        simp only [idleRetries, List.map_cons, List.flatten_cons, List.length_append]
+        omega
+      rw [hfuel, runT_idle_wait' env attach w b tl, p2, ihr]
+      simp
 
 end GV.Codec
